@@ -8,11 +8,13 @@ SPEC = {
     "driver": "Driver/E2EBuild.lean",
     "needs_plz": True,
     "level": "proof",
-    "level_text": "C01_main: for every history (builds of arbitrary intermediate repository states, arbitrary removals from plz-out), "
+    "level_text": "C01_main_if_injective: for every history (builds of arbitrary intermediate repository states, arbitrary removals from plz-out), "
                   "every deterministic action semantics and every well-formed dependency-ordered target list, an incremental build gives "
                   "each requested target and dependency exactly its clean-build output — CONDITIONAL on injectivity of the rule and path "
-                  "pre-images (the statements of C08/C09). C01_witness (kernel-checked, replayed on the real binary) shows the path "
-                  "hypothesis fails for directories on the pinned tree (known finding). Model instantiated with facts regenerated from "
+                  "pre-images (the statements of C08/C09). Witnesses (kernel-checked, replayed on the real binary, known findings) show "
+                  "both hypotheses fail for the pre-images as coded: directory entry names (C01_witness), permission bits "
+                  "(C01_witness_mode_not_hashed), lingering optional outputs (C01_witness_optional_output_lingers), unframed rule "
+                  "pre-image (C01_witness_rule_preimage_not_injective). Model instantiated with facts regenerated from "
                   "needsBuilding/moveOutput/sourceHash; end-to-end correspondence of output trees and executed-action sets with the real plz.",
     "technique": "Lean 4 invariant proof over build histories (refinement to clean build) + regenerated facts + end-to-end differential correspondence with plz",
     "trusted": [
